@@ -129,6 +129,11 @@ def run(model, rep, tier):
                qual='GFCrystalcalc.' + m)
     # ---- SetRates is memoryless: G depends on the current rates only
     memoryless_setters(model, rep, [('GFcalc', 'GFCrystalcalc', 'SetRates')])
+    # any early-return guard in the calculator compares every argument the skipped body reads (none exists today)
+    from .C14 import _memo
+    rep.rule('memo-key-complete', 'an early-return guard compares every parameter the skipped body reads')
+    rep.rule('memo-identity-key', 'a guard keyed on object identity also compares attributes rewritten by every in-place mutator')
+    _memo(model, rep, classes=[('GFcalc', 'GFCrystalcalc')], floor=0)
     dim_generic(model, rep, [('GFcalc', '')], min_functions=18)
     names_and_calls_resolve(model, rep, [('GFcalc', 'GFCrystalcalc.'), ('GFcalc', 'Fnl_p.'), ('GFcalc', 'Fnl_u.')])
 
@@ -157,6 +162,8 @@ BREAKERS = [
     (G, "        self.g_Taylor_fnlu = {(n, l): Fnl_u(n, l, self.pmax, prefactor, d=self.crys.dim)\n                              for (n, l) in self.g_Taylor.nl()}\n",
      "        if getattr(self, 'lastD', None) is None or not np.allclose(self.D / self.maxrate, self.lastD):\n            self.lastD = self.D / self.maxrate\n"
      "            self.g_Taylor_fnlu = {(n, l): Fnl_u(n, l, self.pmax, prefactor, d=self.crys.dim) for (n, l) in self.g_Taylor.nl()}\n", 'state-reuse-keyed'),
+    (G, "        self.symmrate = self.SymmRates(pre, betaene, preT, betaeneT)\n", "        if getattr(self, 'lastpre', None) is pre: return\n        self.lastpre = pre\n        self.symmrate = self.SymmRates(pre, betaene, preT, betaeneT)\n",
+     'memo-key-complete'),
 ]
 NEUTRALS = [
     (G, "np.sqrt(pre[w0] * pre[w1])", "np.sqrt(pre[w1] * pre[w0])"),
